@@ -54,6 +54,10 @@ def extract():
          r"r\.extend_from_slice\(self\.conversion_site_domain\.as_bytes\(\)\);\s*r\.push\(0\);\s*r\.push\(self\.key_id\);\s*r\.extend_from_slice\(&self\.timestamp\.to_be_bytes\(\)\);\s*r\.extend_from_slice\(&self\.epsilon\.to_be_bytes\(\)\);\s*r\.extend_from_slice\(&self\.sensitivity\.to_be_bytes\(\)\);\s*debug_assert_eq!\(\s*r\.len\(\),\s*info_len,\s*\"Serilization", conv=None)
     need("wire.vec_to_bytes", "query/executor.rs",
          r"let mut r = vec!\[0u8; self\.len\(\) \* T::Size::USIZE\];\s*for \(i, row\) in self\.iter\(\)\.enumerate\(\) \{\s*row\.serialize\(GenericArray::from_mut_slice\(\s*&mut r\[\(i \* T::Size::USIZE\)\.\.\(\(i \+ 1\) \* T::Size::USIZE\)\],", conv=None)
+    # C09-JSON-F64 (fixed): serde_json parses an f64 exactly only with its `float_roundtrip` feature; QueryConfig
+    # (PrepareQuery JSON, RouteParams::extra of the in-memory transport) carries HybridQueryParams.epsilon: f64
+    need("wire.serde_json_float_roundtrip", "../Cargo.toml",
+         r"^serde_json = \{[^}\n]*features = \[[^\]\n]*\"float_roundtrip\"[^\]\n]*\][^}\n]*\}", conv=None, flags=re.M)
     v = {k: (x if isinstance(x, int) else 0) for k, x in vals.items()}
     arr_len = v["proofLen"] + (v["maxRec"] - 1) * v["proofLen"]
     L = [
